@@ -220,6 +220,11 @@ fn plan_cfg<Y: Plan>(what: &str, q: bool, heavy: bool, disc: Disc, merge: bool) 
     cfg(&format!("{} {} {:?}{} n<={}", Y::NAME, what, disc, if merge { "+merge" } else { "" }, n), n, Y::ACTORS, disc, merge, Y::alphabet(), q)
 }
 
+/// thorough tier only: one more op with the narrow alphabet and two actors
+fn deep_cfg<Y: Plan>(what: &str, n: usize, disc: Disc, merge: bool) -> Cfg {
+    cfg(&format!("{} {} narrow alphabet, 2 actors, {:?}{} n<={}", Y::NAME, what, disc, if merge { "+merge" } else { "" }, n), n, 2, disc, merge, Y::narrow(), false)
+}
+
 macro_rules! for_systems {
     ($j:ident, [$($Y:ty),*], $f:expr) => { $( { type Y = $Y; let f: &dyn Fn() -> Box<dyn JobT> = &$f; let _ = std::marker::PhantomData::<Y>; $j.push(f()); } )* };
 }
@@ -236,6 +241,10 @@ pub fn jobs(prop: &str, tier: &str) -> Vec<Box<dyn JobT>> {
             each!([Vc, Gc, Pn, Gs, Lww, Mx, Mn, Mv, Or, MapMv, MapOr, MapMap, Gl, Mk], |Y| job::<Y>(plan_cfg::<Y>("ops", q, false, Disc::Causal, false), Converge { closed_only: false, merge_vs_ops: false }));
             j.push(job::<Li>(no_sym(plan_cfg::<Li>("ops", q, false, Disc::Causal, false)), Converge { closed_only: false, merge_vs_ops: false }));
             j.push(job::<Mk>(merkle_dags(if q { 4 } else { 5 }, false), Converge { closed_only: false, merge_vs_ops: false }));
+            if !q {
+                each!([Or, MapMv, MapOr], |Y| job::<Y>(deep_cfg::<Y>("ops", 5, Disc::Causal, false), Converge { closed_only: false, merge_vs_ops: false }));
+                j.push(job::<Mv>(cfg("mvreg ops narrow alphabet, 3 actors, Causal n<=6", 6, 3, Disc::Causal, false, Mv::narrow(), false), Converge { closed_only: false, merge_vs_ops: false }));
+            }
             // self-check of the lattice reduction against a naive permutation enumerator (machinery, not verdict)
             each!([Or, MapOr, MapMv], |Y| {
                 let mut c = plan_cfg::<Y>("explorer self-check", true, true, Y::DISC, true);
@@ -267,28 +276,52 @@ pub fn jobs(prop: &str, tier: &str) -> Vec<Box<dyn JobT>> {
         }
         "C04" => {
             j.push(job::<Or>(plan_cfg::<Or>("spec", q, true, Disc::Fifo, true), SpecMatch { cov_everywhere: true, use_cov: true }));
+            if !q {
+                j.push(job::<Or>(deep_cfg::<Or>("spec", 6, Disc::Fifo, true), SpecMatch { cov_everywhere: true, use_cov: true }));
+                let mut c3 = deep_cfg::<Or>("spec", 5, Disc::Fifo, true);
+                c3.actors = 3;
+                c3.sym = true;
+                c3.label = "orswot spec narrow alphabet, 3 actors (first-appearance order), Fifo+merge n<=5".into();
+                j.push(job::<Or>(c3, SpecMatch { cov_everywhere: true, use_cov: true }));
+            }
         }
         "C05" => {
             each!([MapMv, MapOr, MapMap], |Y| job::<Y>(plan_cfg::<Y>("spec", q, true, Disc::Causal, true), SpecMatch { cov_everywhere: false, use_cov: true }));
             each!([MapMv, MapOr, MapMap], |Y| job::<Y>(plan_cfg::<Y>("spec", q, false, Disc::Fifo, false), SpecMatch { cov_everywhere: true, use_cov: true }));
+            if !q {
+                each!([MapMv, MapOr], |Y| job::<Y>(deep_cfg::<Y>("spec", 5, Disc::Causal, false), SpecMatch { cov_everywhere: false, use_cov: true }));
+            }
         }
         "C06" => {
             j.push(job::<Mv>(plan_cfg::<Mv>("spec", q, true, Disc::Any, true), SpecMatch { cov_everywhere: true, use_cov: true }));
+            if !q {
+                j.push(job::<Mv>(cfg("mvreg spec narrow alphabet, 3 actors, Any n<=6", 6, 3, Disc::Any, false, Mv::narrow(), false), SpecMatch { cov_everywhere: true, use_cov: true }));
+            }
         }
         "C07" => {
             each!([Or, MapMv, MapOr, MapMap], |Y| job::<Y>(plan_cfg::<Y>("contexts", q, true, Disc::Fifo, true), Multi::<Y>(vec![Box::new(CtxCheck), Box::new(SpecMatch { cov_everywhere: false, use_cov: true })])));
             j.push(job::<Mv>(plan_cfg::<Mv>("contexts", q, true, Disc::Any, true), CtxCheck));
+            if !q {
+                j.push(job::<Or>(deep_cfg::<Or>("contexts", 5, Disc::Fifo, true), Multi::<Or>(vec![Box::new(CtxCheck), Box::new(SpecMatch { cov_everywhere: false, use_cov: true })])));
+            }
         }
         "C08" => {
             each!([Or, MapMv, MapOr, MapMap], |Y| job::<Y>(plan_cfg::<Y>("fifo vs causal", q, true, Disc::Fifo, true), Converge { closed_only: true, merge_vs_ops: false }));
             each!([Mv, Vc, Gc, Pn, Gs, Lww, Mx, Mn, Gl, Mk], |Y| job::<Y>(plan_cfg::<Y>("any order", q, true, Disc::Any, true), Converge { closed_only: false, merge_vs_ops: false }));
             j.push(job::<Mk>(merkle_dags(if q { 4 } else { 5 }, true), Converge { closed_only: false, merge_vs_ops: false }));
+            if !q {
+                j.push(job::<Or>(deep_cfg::<Or>("fifo vs causal", 5, Disc::Fifo, true), Converge { closed_only: true, merge_vs_ops: false }));
+                j.push(job::<MapOr>(deep_cfg::<MapOr>("fifo vs causal", 5, Disc::Fifo, false), Converge { closed_only: true, merge_vs_ops: false }));
+            }
         }
         "C09" => {
             each!([Or, MapMv, MapOr, MapMap], |Y| job::<Y>(plan_cfg::<Y>("dup+stale", q, true, Disc::Fifo, true), DupStale));
             each!([Mv, Vc, Gc, Pn, Gs, Lww, Mx, Mn, Gl, Mk], |Y| job::<Y>(plan_cfg::<Y>("dup+stale", q, true, Disc::Any, true), DupStale));
             j.push(job::<Li>(no_sym(plan_cfg::<Li>("dup", q, true, Disc::Causal, false)), DupStale));
             j.push(job::<Mk>(merkle_dags(if q { 4 } else { 5 }, true), DupStale));
+            if !q {
+                j.push(job::<Or>(deep_cfg::<Or>("dup+stale", 5, Disc::Fifo, true), DupStale));
+            }
         }
         "C11" => {
             each!([Gc, Pn, Gs, Lww, Mx, Mn], |Y| job::<Y>(plan_cfg::<Y>("aggregate", q, true, Disc::Any, true), Multi::<Y>(vec![Box::new(SpecMatch { cov_everywhere: false, use_cov: false }), Box::new(DupStale), Box::new(ValidateOp), Box::new(ValidateMerge { misuse: false })])));
@@ -327,6 +360,27 @@ pub fn jobs(prop: &str, tier: &str) -> Vec<Box<dyn JobT>> {
         }
         "C17" => {
             each!([Or, MapMv, MapOr, MapMap], |Y| job::<Y>(plan_cfg::<Y>("validate_merge correct use", q, true, Disc::Fifo, true), ValidateMerge { misuse: false }));
+            j.push(job::<Lww>(plan_cfg::<Lww>("validate_merge unique markers", q, true, Disc::Any, true), ValidateMerge { misuse: false }));
+            // misuse: replicas 0 and 1 both edit as actor 0 without seeing each other's ops, replica 2 is actor 1
+            let mis = |mut c: Cfg, cmds: Vec<Cmd>, n: usize| {
+                c.actor_map = vec![0, 0, 1];
+                c.cmds = cmds;
+                c.n = n;
+                c.sym = false;
+                c.merge = false;
+                c.disc = Disc::Causal;
+                c.label = format!("{} one actor id hosted on two replicas, all pairs of reachable states, n<={}", c.label.split(' ').next().unwrap_or(""), n);
+                c
+            };
+            let n = if q { 3 } else { 4 };
+            j.push(job::<Or>(mis(plan_cfg::<Or>("", q, true, Disc::Causal, false), vec![cmd(so::ADD, 0, 0), cmd(so::ADD, 1, 0), cmd(so::ADD, 2, 0), cmd(so::RM_CONTAINS, 0, 0)], n), ValidateMerge { misuse: true }));
+            j.push(job::<MapMv>(mis(plan_cfg::<MapMv>("", q, true, Disc::Causal, false), vec![cmd(mm::UP, 0, 0), cmd(mm::UP, 1, 0), cmd(mm::UP, 2, 0), cmd(mm::RM_GET, 0, 0)], n), ValidateMerge { misuse: true }));
+            j.push(job::<MapOr>(mis(plan_cfg::<MapOr>("", q, true, Disc::Causal, false), vec![cmd(mo::ADD, 0, 0), cmd(mo::ADD, 1, 0), cmd(mo::ADD, 0, 1), cmd(mo::ADD, 2, 0), cmd(mo::RM_KEY, 0, 0)], n), ValidateMerge { misuse: true }));
+            let mut c = plan_cfg::<Lww>("reused markers", q, true, Disc::Any, true);
+            c.cmds = vec![cmd(sp::UPDATE, 1, 0), cmd(sp::UPDATE_REUSED, 1, 0), cmd(sp::UPDATE_REUSED, 2, 0)];
+            c.n = if q { 3 } else { 4 };
+            c.label = format!("lwwreg reused markers Any+merge n<={}", c.n);
+            j.push(job::<Lww>(c, ValidateMerge { misuse: true }));
         }
         "C18" => {
             // every clock of the grid (3 actors x counters 0..=2: below, above and concurrent with the state's clock)
@@ -362,6 +416,9 @@ pub fn jobs(prop: &str, tier: &str) -> Vec<Box<dyn JobT>> {
         }
         "C20" => {
             each!([Or, Mv, MapMv, MapOr, MapMap, Vc, Gc, Pn, Gs, Lww, Mx, Mn, Gl, Mk], |Y| job::<Y>(plan_cfg::<Y>("== and residue", q, true, Y::DISC, true), EqResidue));
+            if !q {
+                j.push(job::<Or>(deep_cfg::<Or>("== and residue", 5, Disc::Fifo, true), EqResidue));
+            }
         }
         _ => {}
     }
